@@ -597,11 +597,17 @@ def impl_world(le, dasz, info, abbrev, types, secs):
         except Exception as e:      # noqa: BLE001
             end = classify_exception(e)
         out[key] = {'units': units, 'end': end}
-    try:
-        probe_random_access_parents(le, dasz, info, abbrev, types, secs, out)
-    except AssertionError as e:
-        out['info'] = dict(out['info'], end='assertion: %s' % e)
     return out
+
+
+def probe_world(le, dasz, info, abbrev, types, secs, walked):
+    """the random-access probe as a separate observation (None = agrees with the walk): judged on WELL-FORMED forests only —
+    on a malformed one (e.g. a DW_AT_sibling that lies) the walk and the ancestor search may legitimately disagree"""
+    try:
+        probe_random_access_parents(le, dasz, info, abbrev, types, secs, walked)
+    except AssertionError as e:
+        return str(e)
+    return None
 
 
 def reduced(x):
@@ -685,6 +691,11 @@ def check_case(ctx, stream, rq, r):
         d, known = judge(rq, impl, r['expect'])
         if d is not None:
             out.violation('property', stream, rq, diff=d, expect=None, got=None)
+            return
+        pr = probe_world(rq['le'], rq['dasz'], info, abbrev, types, rq['secs'], impl)
+        out.count(stream + ':random-access-parent-probe')
+        if pr is not None:
+            out.violation('property', stream, rq, diff=['random-access', pr], expect=None, got=None)
             return
         if known is not None:
             # a reference the property covers and the library does not resolve: judged, reported, and recognised by
@@ -884,6 +895,9 @@ def replay(ctx, payload):
         if r['wf']:
             d, known = judge(case, impl, r['expect'])
             d = d if d is not None else (known[0] if known is not None else None)
+            if d is None:
+                pr = probe_world(case['le'], case['dasz'], info, abbrev, types, case['secs'], impl)
+                d = ['random-access', pr] if pr is not None else None
         model = dict(r['model'])
         hook = model.pop('top_hook_fails') or model.pop('low_fetch', False)
         model.pop('low_fetch', None)
